@@ -5,6 +5,9 @@
   token list) that satisfy the decidable predicate `WellFormed`; no bound on sizes. Core Lean only.
 
     warnings_eq_missing       reported (NAME, residue) pairs = missing pairs, as sets
+    history_statement         the same after ANY history of edits / evaluations / attribute assignments (no hypothesis
+                              on the history: the check rebuilds the name index, fix C17_5)
+    lookup_after_history      after API edits the name index itself answers for the edited atom list
     no_warning_if_all_exist   nothing missing, class known  =>  no message at all
     message_iff               a message exists  <=>  something is missing or the class has no residues
     wildcards_never_reported  no hypothesis: `$E`, `NAME_$n`, `<`, `>`, `=` are never among the reported names
@@ -557,13 +560,13 @@ theorem checkToken_spec {f : File} {r : Restr} (hf : NoUS f) {cw : Bool} {nums :
 
 /-- core statement: on a well-formed input the check runs through, its class message appears exactly for a
     class without residues, and the names it reports denote exactly the missing (NAME, residue) pairs -/
-theorem assign_spec (f : File) (r : Restr) (h : WellFormed f r) :
-    ∃ o, assign f r = .ok o ∧ o.classMsg = classUnknown f r ∧ ∀ p, p ∈ reported o ↔ p ∈ missing f r := by
-  obtain ⟨⟨hf, hco⟩, hk, ht⟩ := h
+theorem evaluate_spec (f : File) (r : Restr) (h : WellFormed f r) (hco : coherent f = true) :
+    ∃ o, evaluate f r = .ok o ∧ o.classMsg = classUnknown f r ∧ ∀ p, p ∈ reported o ↔ p ∈ missing f r := by
+  obtain ⟨hf, hk, ht⟩ := h
   obtain ⟨cls, nums, hc, hn, hcw, h1, h2⟩ := kw_spec hf hk
   have hnus : NoUS f := ⟨(wfFile_iff.1 hf).1, index_of_coherent hco⟩
   refine ⟨{ bad := r.atoms.flatMap (checkToken f (classUnknown f r) nums), classMsg := classUnknown f r }, ?_, rfl, ?_⟩
-  · simp only [assign, hc, hn, bind, Except.bind, pure, Except.pure, hcw]
+  · simp only [evaluate, hc, hn, bind, Except.bind, pure, Except.pure, hcw]
   · intro p
     simp only [reported, missing_eq, List.map_flatMap, List.mem_flatMap]
     constructor
@@ -571,6 +574,12 @@ theorem assign_spec (f : File) (r : Restr) (h : WellFormed f r) :
       exact ⟨tok, htok, (checkToken_spec hnus h1 h2 (ht tok htok) p).1 hp⟩
     · rintro ⟨tok, htok, hp⟩
       exact ⟨tok, htok, (checkToken_spec hnus h1 h2 (ht tok htok) p).2 hp⟩
+
+/-- the check empties the cached index first, so whatever the cache holds (stale or not) the result is that of
+    an evaluation on the atom list -/
+theorem assign_spec (f : File) (r : Restr) (h : WellFormed f r) :
+    ∃ o, assign f r = .ok o ∧ o.classMsg = classUnknown f r ∧ ∀ p, p ∈ reported o ↔ p ∈ missing f r :=
+  evaluate_spec { f with cache := [] } r h rfl
 
 /-- **warnings_eq_missing**: for every file, residue registry and restraint in the stated domain, the set of
     (NAME, residue) pairs named after 'Atom list has no -->' is the set of addressed pairs that do not exist.
@@ -636,7 +645,8 @@ theorem coherent_step {f : File} (h : coherent f = true) (op : Op) (hop : op.kee
     · simp [coherent]
   | add nm => simp [step, coherent]
   | setResi i n => simp [Op.keepsIndex] at hop
-  | check =>
+  | check => simp [step, coherent]
+  | lookup =>
     have := index_of_coherent h
     simp [step, coherent, this]
 
@@ -648,19 +658,27 @@ theorem coherent_run {f : File} (h : coherent f = true) (ops : List Op) (hops : 
     simp only [run, List.foldl_cons]
     exact ih (coherent_step h op (hops op (by simp))) (fun o ho => hops o (by simp [ho]))
 
-/-- **warnings_after_history**: after ANY sequence of deletions (both forms), renamings, additions and
-    intermediate evaluations, the diagnostics name exactly the atoms that are missing from the EDITED atom list.
-    The data hypotheses are those of `warnings_eq_missing`, stated for the edited file; coherence of the cached
-    index is not assumed for the result, it is derived from the history. `setResi` (plain assignment to
-    `atom.resi`) is excluded: `history_fails_on`. -/
-theorem warnings_after_history (f : File) (ops : List Op) (r : Restr)
-    (h0 : coherent f = true) (hops : ∀ op ∈ ops, op.keepsIndex = true)
-    (hf : wfFile (run f ops) = true) (hk : wfKw r.kw = true) (ht : ∀ t ∈ r.atoms, wfTok t = true) :
-    ∃ o, assign (run f ops) r = .ok o ∧ ∀ p, p ∈ reported o ↔ p ∈ missing (run f ops) r :=
-  warnings_eq_missing _ _ ⟨⟨hf, coherent_run h0 ops hops⟩, hk, ht⟩
+/-- **HistoryStatement**, full strength: after ANY history — deletions in both forms, renamings, additions,
+    intermediate evaluations and look-ups, and the plain assignment `atom.resi = RESI(...)` that leaves the cached
+    index stale — the diagnostics name exactly the atoms missing from the EDITED atom list. No hypothesis on the
+    ops and none on the cache; the data hypotheses are those of `warnings_eq_missing`, stated for the edited file. -/
+def HistoryStatement : Prop :=
+  ∀ (f : File) (ops : List Op) (r : Restr), WellFormed (run f ops) r →
+    ∃ o, assign (run f ops) r = .ok o ∧ ∀ p, p ∈ reported o ↔ p ∈ missing (run f ops) r
 
-/-- the full-strength statement over all ops, including the attribute assignment (open finding) -/
-def HistoryStatement : Prop := ∀ (f : File) (ops : List Op), coherent f = true → coherent (run f ops) = true
+theorem history_statement : HistoryStatement := fun f ops r h => warnings_eq_missing (run f ops) r h
+
+theorem warnings_after_history (f : File) (ops : List Op) (r : Restr) (h : WellFormed (run f ops) r) :
+    ∃ o, assign (run f ops) r = .ok o ∧ ∀ p, p ∈ reported o ↔ p ∈ missing (run f ops) r :=
+  history_statement f ops r h
+
+/-- **lookup_after_history**: after any history of API edits the name index answers `NAME_n` exactly for the atoms
+    of the edited list (`get_atom_by_name`, which other code of the library relies on). The attribute assignment is
+    excluded here — `stale_lookup_after_attribute_assignment` — and only here. -/
+theorem lookup_after_history (f : File) (ops : List Op) (h0 : coherent f = true)
+    (hops : ∀ op ∈ ops, op.keepsIndex = true) (hf : wfFile (run f ops) = true) {nm : Str} (hnm : '_' ∉ nm) (n : Nat) :
+    getAtomByName (run f ops) (nm ++ '_' :: natStr n) = atomExists (run f ops) (upper nm) n :=
+  getAtomByName_name_num ⟨(wfFile_iff.1 hf).1, index_of_coherent (coherent_run h0 ops hops)⟩ hnm n
 
 /-! ### wildcards, operators and symmetry equivalents are never reported (no hypothesis at all) -/
 
@@ -735,9 +753,9 @@ theorem checkToken_addressable (f : File) (cw : Bool) (nums : List Nat) (tok : S
 
 /-- **wildcards_never_reported**: whatever the file, the registry and the restraint, no reported name is an
     element wildcard (`$C`), a symmetry equivalent (`C1_$1`), or one of `<`, `>`, `=` -/
-theorem wildcards_never_reported (f : File) (r : Restr) (o : Outcome) (h : assign f r = .ok o) :
+theorem evaluate_addressable (f : File) (r : Restr) (o : Outcome) (h : evaluate f r = .ok o) :
     ∀ s ∈ o.bad, addressable s = true := by
-  simp only [assign, bind, Except.bind, pure, Except.pure] at h
+  simp only [evaluate, bind, Except.bind, pure, Except.pure] at h
   split at h
   · simp at h
   · split at h
@@ -747,7 +765,11 @@ theorem wildcards_never_reported (f : File) (r : Restr) (o : Outcome) (h : assig
       intro s hs
       simp only [List.mem_flatMap] at hs
       obtain ⟨tok, _, hm⟩ := hs
-      exact checkToken_addressable f _ _ tok s hm
+      exact checkToken_addressable _ _ _ tok s hm
+
+theorem wildcards_never_reported (f : File) (r : Restr) (o : Outcome) (h : assign f r = .ok o) :
+    ∀ s ∈ o.bad, addressable s = true :=
+  evaluate_addressable _ r o h
 
 /-! ### concrete inputs: the hypotheses are met by non-trivial inputs, and every place where the code as it was
     before fixes/C17_1..4 (`Legacy`) differs from the property is witnessed -/
@@ -833,14 +855,20 @@ theorem two_underscores_raise : kwClass ['S', 'A', 'D', 'I', '_', '1', '_', '2']
 /-- `SADI_1 C1 C2`, evaluated, then `atoms[2].resi = RESI 0` (C1 of residue 1 moved to residue 0), evaluated again:
     the stale index still finds `C1_1` -/
 def restrR1 : Restr := { kw := ['S', 'A', 'D', 'I', '_', '1'], atoms := [C1, C2] }
-theorem history_fails_on : ¬ HistoryStatement := by
-  intro h
-  have := h fileA [.check, .setResi 2 0] (by decide +kernel)
-  exact absurd this (by decide +kernel)
-
-theorem stale_index_misses_moved_atom :
+/-- C17_5: before the fix the loop ran on the cached index as it was (`evaluate`): the stale index still finds
+    `C1_1`; the repaired check reports it -/
+theorem legacy_stale_index_misses_moved_atom :
     missing (run fileA [.check, .setResi 2 0]) restrR1 = [(C1, 1)] ∧
-    (assign (run fileA [.check, .setResi 2 0]) restrR1).map reported = .ok [] := by decide +kernel
+    (evaluate (run fileA [.check, .setResi 2 0]) restrR1).map reported = .ok [] ∧
+    (assign (run fileA [.check, .setResi 2 0]) restrR1).map reported = .ok [(C1, 1)] := by decide +kernel
+
+/-- the attribute assignment leaves the index itself stale (outside `lookup_after_history`) -/
+theorem stale_lookup_after_attribute_assignment :
+    coherent (run fileA [.check, .setResi 2 0]) = false ∧
+    getAtomByName (run fileA [.check, .setResi 2 0]) ['C', '1', '_', '1'] = true ∧
+    atomExists (run fileA [.check, .setResi 2 0]) C1 1 = false := by decide +kernel
+
+example : WellFormed (run fileA [.check, .setResi 2 0]) restrR1 := by decide +kernel
 
 /-- a history through the API: evaluate, `del atoms[3]` (C2 of residue 1), rename atoms[0] C1 -> C9, add C1, evaluate -/
 def opsA : List Op := [.check, .delItem 3, .rename 0 ['C', '9'], .add C1, .check]
